@@ -13,6 +13,10 @@ bound_self, compare)`): which argument receives `compare.data`, `self.data`, `bo
          error term), whose value derives from x.  `rop` is the approximation accumulated in the output parameter.
  R-PROV  the result's `estimation` field takes only those constants; `iterations` is the loop counter that is compared with max_n
          (all its definitions are 0 or counter + 1).
+ R-TABLE the iteration budget is strict.  The loop is tabulated from its head with the counter n as a free variable and evaluated
+         for max_n in {0,1,2,7} x n in 0..max_n (path conditions over n and max_n only are decided, in any spelling; all others
+         are left open): a path that goes round the loop leaves n <= max_n, a returning path reports iterations <= max_n
+         (so a round is started only while n < max_n), and the loop is not left on the budget test alone while n < max_n.
 Not decided: the series (that rop and E are the Taylor partial sum and the Lagrange remainder), the EPS cut-off, the exact
 iteration count."""
 import re
@@ -239,6 +243,7 @@ def run(tier):
         res.violation("error-term:differs", "the upper and the lower bound use different error variables (%s)" % sorted(allE), where=where(f), rule="R-PROV")
     # iterations
     it_ok = True
+    counters = set()
     for bi, si, rv in sites:
         it = strip(f.sym_operand(rv["fields"][fidx["iterations"]]), None)
         loc = None
@@ -252,19 +257,8 @@ def run(tier):
             it_ok = False
             res.violation("iterations:provenance", "ExpCmpOrdering.iterations is %s, not the loop counter" % sym_str(it, 60), where=where(f), rule="R-PROV")
             continue
-        # counter: compared with max_n, defined as 0 / counter + 1
-        compared = False
-        for bb in f.live_blocks():
-            t = f.blocks[bb]["term"]
-            if t["k"] == "switch":
-                c = f.sym_operand(t["d"])
-                while c[0] == "un":
-                    c = c[2]
-                if c[0] == "bin" and c[1] in ("Lt", "Le", "Gt", "Ge", "Eq", "Ne"):
-                    a, b = strip(c[2]), strip(c[3])
-                    pair = {(a[0], a[1]), (b[0], b[1])} if len(a) > 1 and len(b) > 1 else set()
-                    if ("local", loc) in pair and ("param", roles["max_n"]) in pair:
-                        compared = True
+        # counter: some loop test is a function of (counter, max_n) only; defined as 0 / counter + 1
+        compared = bool(budget_heads(P, f, loc, roles["max_n"]))
         defs_ok = True
         for dbi, dsi, kind, payload in f.defs().get(loc, []):
             v = f.sym_rvalue(payload[2], 20) if kind == "assign" else ("?",)
@@ -274,12 +268,17 @@ def run(tier):
             if inc[0] == "bin" and inc[1].startswith("Add") and strip(inc[2]) [:2] == ("local", loc) and inc[3][0] == "const" and int(inc[3][1]) == 1:
                 continue
             defs_ok = False
+        counters.add(loc)
         if not compared or not defs_ok:
             it_ok = False
             res.violation("iterations:counter", "ExpCmpOrdering.iterations comes from `%s`, which is not the loop counter (compared with max_n: %s; defined only as 0 / +1: %s)" % (
                 f.local_name(loc), compared, defs_ok), where=where(f), rule="R-PROV")
     if it_ok:
         res.ok("iterations:counter", "R-PROV", "iterations is the counter compared with max_n")
+    if it_ok and len(counters) == 1:
+        check_budget(res, P, f, roles, next(iter(counters)), fidx["iterations"])
+    elif it_ok:
+        res.violation("budget:counter", "the result sites use different iteration counters; the budget clause cannot be evaluated", where=where(f), rule="R-TABLE")
     res.assumptions += ["dashu IBig operator traits implement integer +, -, *, comparison", "the output parameter holds the running approximation (the series itself is not decided)"]
     return finish(res,
                   explanation="Direction clause of C16: each point where ref_exp_cmp concludes GT (LT) is control dependent on the true outcome of the strict "
@@ -289,3 +288,134 @@ def run(tier):
                               "the Taylor sum and the Lagrange remainder, the EPS cut-off, or the iteration count against the reference.",
                   rule_text="R-CDEP(GT/LT conclusion on compare vs rop +/- error*bound_x) + R-PROV(result fields)",
                   trusted_base=["rustc MIR", "dashu-int operator semantics"])
+
+
+def _replay(f, T, blocks):
+    """Values of the plain locals after executing the statements of `blocks` in order (no forking): the tabulator's
+    own statement semantics, used to read the counter at the end of a loop-closing path."""
+    env = {}
+    for bb in blocks:
+        b = f.blocks[bb]
+        for st in b["st"]:
+            if st[0] == "a" and isinstance(st[1], int):
+                env[st[1]] = T.ev_rvalue(env, st[2])
+        t = b["term"]
+        if t["k"] == "call" and isinstance(t["dest"], int):
+            env[t["dest"]] = ("call", t.get("f") or t.get("g") or "<indirect>", (), bb)
+    return env
+
+
+def check_budget(res, P, f, roles, counter, it_field):
+    from pv.tabulate import Tabulator, Path, BudgetExceeded
+    from pv.x_misc import feasible
+    mx = roles["max_n"]
+    only_budget = lambda sym: _only_budget(sym, counter, mx)
+    heads = budget_heads(P, f, counter, mx)
+    if not heads:
+        res.violation("budget:unevaluable", "no loop test of ref_exp_cmp is a function of the iteration counter and max_n only: the iteration budget cannot be evaluated",
+                      where=where(f), rule="R-TABLE")
+        return
+    h = loop_header(f, heads[0])
+    T = Tabulator(f, P, 20000)
+    try:
+        T._walk(h, {}, {}, Path(), set())
+    except BudgetExceeded as e:
+        res.violation("budget:paths", "cannot enumerate the paths of one loop round of ref_exp_cmp: %s" % e, where=where(f), rule="R-TABLE")
+        return
+    paths = [p for p in T.out if p.end in ("return", "loop")]
+    res.count("budget: paths of one loop round", len(paths))
+    bad = {}
+    n_cells = 0
+    for m in (0, 1, 2, 7):
+        for n0 in range(0, m + 1):
+            def leaf(s_, n0=n0, m=m):
+                if s_[0] == "local" and s_[1] == counter:
+                    return n0
+                if s_[0] == "param" and s_[1] == mx:
+                    return m
+                raise Unknown(s_)
+            ev = Ev(leaf, bits=64, prog=P)
+            for p in paths:
+                # decide only the conditions over (n, max_n); leave the others open
+                dec = [c for c in p.conds if only_budget(c[0])]
+                q = type("Q", (), {"conds": dec})()
+                if feasible(q, ev) is not True:
+                    continue
+                n_cells += 1
+                if p.end == "loop":
+                    if p.blocks[-1] != h:
+                        continue
+                    env = _replay(f, T, p.blocks[:-1])
+                    try:
+                        after = ev(env.get(counter, ("local", counter, None)))
+                    except Unknown:
+                        bad.setdefault("budget:counter-update", "the counter is updated by something that is not a function of the counter (%s)" % sym_str(env.get(counter), 60))
+                        continue
+                    if after > m:
+                        bad.setdefault("budget:round-beyond-max_n", "a loop round is started with n=%d, max_n=%d and leaves n=%d: the budget test admits n >= max_n "
+                                       "(the reference runs while n < max_n)" % (n0, m, after))
+                else:
+                    r = p.ret
+                    it = None
+                    if r is not None and r[0] == "agg" and str(r[1]) == RESULT and it_field < len(r[3]):
+                        it = r[3][it_field]
+                    if it is None:
+                        bad.setdefault("budget:result", "a returning path does not build ExpCmpOrdering in a recognisable form (%s)" % sym_str(r or ("unknown",), 60))
+                        continue
+                    try:
+                        v = ev(it)
+                    except Unknown:
+                        bad.setdefault("budget:iterations-term", "iterations is not a function of the counter on a returning path (%s)" % sym_str(it, 60))
+                        continue
+                    if v > m:
+                        bad.setdefault("budget:iterations-beyond-max_n", "with n=%d, max_n=%d the function can return iterations=%d > max_n" % (n0, m, v))
+                    opened = [c for c in p.conds if not only_budget(c[0]) and not (c[0][0] == "local" and f.local_ty(c[0][1]) == "bool")]
+                    if n0 < m and not opened and dec:
+                        bad.setdefault("budget:stops-early", "with n=%d < max_n=%d the loop is left on the budget test alone (the reference continues while n < max_n)" % (n0, m))
+    res.count("budget: (max_n, n, path) cells", n_cells)
+    if not n_cells:
+        bad.setdefault("budget:unevaluable", "no path of a loop round is feasible for any (n, max_n)")
+    if bad:
+        for k, msg in bad.items():
+            res.violation(k, "ref_exp_cmp iteration budget: " + msg, where="%s:%s" % (f.file, f.blocks[h]["term"]["s"][0]), rule="R-TABLE")
+    else:
+        res.ok("budget:strict", "R-TABLE", "a round starts only while n < max_n; n and iterations never exceed max_n (max_n in {0,1,2,7}, n in 0..max_n)")
+
+
+def _only_budget(sym, counter, mx):
+    """Is the term a function of the counter, max_n and constants only (and of both)?"""
+    seen = set()
+    for s_ in sym_walk(sym):
+        if s_[0] == "local":
+            if s_[1] != counter:
+                return False
+            seen.add("n")
+        elif s_[0] == "param":
+            if s_[1] != mx:
+                return False
+            seen.add("m")
+        elif s_[0] in ("call", "discr", "agg", "repeat", "other", "constsym", "fnconst", "unknown"):
+            return False
+    return seen == {"n", "m"}
+
+
+def budget_heads(P, f, counter, mx):
+    """Switch blocks inside a cycle whose condition is a function of (counter, max_n) only."""
+    from pv.tabulate import Tabulator
+    heads = []
+    for bb in f.live_blocks():
+        t = f.blocks[bb]["term"]
+        if t["k"] == "switch" and f.in_loop(bb):
+            if _only_budget(f.sym_operand(t["d"]), counter, mx):
+                heads.append(bb)
+    return heads
+
+
+def loop_header(f, bb):
+    """Entry block of the cycle through bb: the block of that cycle which dominates all the others."""
+    cyc = [c for c in f.live_blocks() if (c == bb or (f.can_reach(c, bb) and f.can_reach(bb, c)))]
+    dom = f.dominators()
+    for c in cyc:
+        if all(c in dom.get(x, ()) for x in cyc):
+            return c
+    return bb
